@@ -85,8 +85,9 @@ Paths(v, depth) ==     \* set of [p |-> path source suffix, v |-> value reached]
    ELSE CASE v.t = "arr" -> UNION {{[p |-> "[" \o ToString(i - 1) \o "]" \o q.p, v |-> q.v] : q \in Paths(v.es[i], depth - 1)} : i \in 1..Len(v.es)}
           [] v.t = "obj" -> UNION {{[p |-> acc \o q.p, v |-> q.v] :
                                       q \in Paths(v.ps[i].pv, depth - 1),
-                                      acc \in {"." \o v.ps[i].pk, "." \o LowerFirst(v.ps[i].pk), "[\"" \o v.ps[i].pk \o "\"]",
-                                               "[\"" \o LowerFirst(v.ps[i].pk) \o "\"]"}} : i \in 1..Len(v.ps)}
+                                      acc \in {"." \o v.ps[i].pk, "[\"" \o v.ps[i].pk \o "\"]"}
+                                             \cup (IF HasKey(v, LowerFirst(v.ps[i].pk)) /\ LowerFirst(v.ps[i].pk) # v.ps[i].pk THEN {}
+                                                   ELSE {"." \o LowerFirst(v.ps[i].pk), "[\"" \o LowerFirst(v.ps[i].pk) \o "\"]"})} : i \in 1..Len(v.ps)}
           [] OTHER -> {})
 
 \* ---- the families ----
@@ -110,6 +111,10 @@ NilPtrs == {GPtrNil(w) : w \in {"int", "string", "struct"}}
                  GStruct(<<Fld("P", TRUE, GPtrNil("int")), Fld("Name", TRUE, GStr("n"))>>), GPtr(GPtrNil("int")),
                  GStruct(<<Fld("P", TRUE, GPtrNil("struct"))>>), GSlice(<<GNil, GNil>>), GMap(<<KV("k", GNil)>>),
                  GStruct(<<Fld("Q", TRUE, GNil)>>)}
+\* keys that differ only in the case of their first letter: the exact name wins over the first-letter fallback
+CaseKeys == {GMap(<<KV("name", GInt("int", "five")), KV("Name", GStr("upper"))>>), GMap(<<KV("Name", GStr("upper")), KV("name", GInt("int", "zero"))>>),
+             GMap(<<KV("k", GMap(<<KV("q", GBool(TRUE)), KV("Q", GBool(FALSE))>>))>>),
+             GStruct(<<Fld("Inner", TRUE, GMap(<<KV("val", GStr("lo")), KV("Val", GStr("hi"))>>))>>)}
 \* unsupported kinds at every depth
 Bads == {GBad(u) : u \in {"chan", "func", "complex", "array", "mapint", "uintptr"}}
 BadAt(b) == {b, GPtr(b), GSlice(<<GInt("int", "five"), b>>), GMap(<<KV("k", b)>>), GStruct(<<Fld("Name", TRUE, GStr("n")), Fld("Val", TRUE, b)>>),
@@ -119,7 +124,7 @@ BadAt(b) == {b, GPtr(b), GSlice(<<GInt("int", "five"), b>>), GMap(<<KV("k", b)>>
 HiddenBad == {GStruct(<<Fld("Name", TRUE, GStr("n")), Fld("ch", FALSE, GBad("chan"))>>)}
 
 Values == CASE Family = "scalars" -> Scalars
-            [] Family = "g1" -> G1 \cup NilPtrs
+            [] Family = "g1" -> G1 \cup NilPtrs \cup CaseKeys
             [] Family = "g2" -> G2
             [] Family = "bad" -> UNION {BadAt(b) : b \in Bads} \cup HiddenBad
 
